@@ -26,6 +26,7 @@ package redirect
 //@ extern invoke:(github.com/tmpim/casket/caskethttp/httpserver.Replacer).Replace
 //@ extern html.EscapeString
 //@ func schemeMatches
+//@   requires req != nil
 //@   pure
 //@ extern invoke:(github.com/tmpim/casket/caskethttp/httpserver.RequestMatcher).Match
 //@ func (Redirect).ServeHTTP
